@@ -1192,7 +1192,10 @@ class Mps(MatrixProduct):
                             return func(0, y)
                         
                         if self.evolve_config.ivp_solver == "krylov":
-                            ms, Lanczos_vectors = expm_krylov(func1, evolve_dt, mps[imps].ravel().array)
+                            # `expm_krylov` requires a hermitian matrix. `func1` is H/coef,
+                            # so feed H and move `coef` to the time
+                            ms, Lanczos_vectors = expm_krylov(lambda y: func1(y) * coef, evolve_dt / coef,
+                                                              mps[imps].ravel().array)
                             logger.debug(f"# of Lanczos_vectors, {Lanczos_vectors}")
                         else:
                             sol = solve_ivp(lambda t, y: func1(y), 
